@@ -8,12 +8,15 @@ ASSUMPTIONS = [
     'virtual clock, gated DictStorage-backed store (every storage call is a yield point, as on disk/redis/cloud); the per-backend storage semantics are C15/C04',
 ]
 
-CFGS = [dict(max_msgs=2, flush=True, backend='disk'), dict(max_msgs=2, flush=False, backend='cloud'),
+CFGS = [dict(max_msgs=3, flush=True, relay_pool=1), dict(max_msgs=3, flush=False, relay_pool=2, foreign=True),
+        dict(max_msgs=2, flush=True, backend='disk'), dict(max_msgs=2, flush=False, backend='cloud'),
         dict(max_msgs=2, flush=True), dict(max_msgs=3, flush=False), dict(max_msgs=2, flush=True, junk=True),
         dict(max_msgs=1, flush=True)]
 
 
 def run(ctx):
+    for backend in ('dict', 'disk', 'cloud'):
+        qharness.scripted_rounds(ctx, ('c01',), backend)
     ctx.extra['rule'] = ('random schedules over {enqueue, release any pending storage/relay/load/wait gate with a random result '
                          '(relay: ok/temp/perm/other/mapping/sequence, a stream with results outside the contract; backoff: None/0/5/10), '
                          'advance the virtual clock, flush}; each run is then drained and the final disposition of every accepted recipient '
